@@ -19,8 +19,14 @@ package keepclient
 // (service discovery does network I/O and is outside the engine's reach).
 //@ func KeepClient.getRequestID property C11
 //@   modifies nothing
-//@ func KeepClient.WritableLocalRoots trusted
-//@   modifies KeepClient.localRoots KeepClient.writableLocalRoots KeepClient.gatewayRoots KeepClient.replicasPerService KeepClient.foundNonDiskSvc KeepClient.disableDiscovery
+// (service discovery talks to the API server; only its frame is assumed)
+//@ func KeepClient.discoverServices trusted
+//@   modifies KeepClient.localRoots KeepClient.writableLocalRoots KeepClient.gatewayRoots KeepClient.replicasPerService KeepClient.foundNonDiskSvc KeepClient.disableDiscovery map[string]string
+// The three getters return the map they are named after, as it is after
+// discovery - in particular an empty writable map stays empty (no fallback to
+// the full list).
+//@ func KeepClient.WritableLocalRoots property C11
+//@   modifies KeepClient.localRoots KeepClient.writableLocalRoots KeepClient.gatewayRoots KeepClient.replicasPerService KeepClient.foundNonDiskSvc KeepClient.disableDiscovery map[string]string
 //@   ensures result == kc.writableLocalRoots
 
 //@ func KeepClient.putReplicas property C11 safety -bounds
@@ -42,6 +48,9 @@ package keepclient
 //@   at assign status#1: set resp0 = status.response
 //@   at assign status#1: set loc0 = locator
 //@   at loop 2 back: assert len(retryServers) == len0 + ite(retryable(code), 1, 0)
+//@   # ... and the server queued for the next attempt is the one whose upload
+//@   # reported the failure (the root of the failed request's URL)
+//@   calls append#1: requires $1[0] == status.url[0:strings.LastIndex(status.url, "/")]
 //@   # the list of servers to try again holds exactly the retryable failures of
 //@   # the current attempt (it starts empty in every attempt)
 //@   ghost nret int = 0
@@ -110,11 +119,11 @@ package keepclient
 //@   loop 1: invariant forall k int :: 0 <= k && k < $i ==> sorted[k] == old(rs.root[rs.order[k]])
 //@   loop 1: invariant forall k int :: 0 <= k && k < len(rs.root) ==> rs.root[k] == old(rs.root[k])
 
-//@ func KeepClient.GatewayRoots trusted
-//@   modifies KeepClient.localRoots KeepClient.writableLocalRoots KeepClient.gatewayRoots KeepClient.replicasPerService KeepClient.foundNonDiskSvc KeepClient.disableDiscovery
+//@ func KeepClient.GatewayRoots property C12
+//@   modifies KeepClient.localRoots KeepClient.writableLocalRoots KeepClient.gatewayRoots KeepClient.replicasPerService KeepClient.foundNonDiskSvc KeepClient.disableDiscovery map[string]string
 //@   ensures result == kc.gatewayRoots
-//@ func KeepClient.LocalRoots trusted
-//@   modifies KeepClient.localRoots KeepClient.writableLocalRoots KeepClient.gatewayRoots KeepClient.replicasPerService KeepClient.foundNonDiskSvc KeepClient.disableDiscovery
+//@ func KeepClient.LocalRoots property C12
+//@   modifies KeepClient.localRoots KeepClient.writableLocalRoots KeepClient.gatewayRoots KeepClient.replicasPerService KeepClient.foundNonDiskSvc KeepClient.disableDiscovery map[string]string
 //@   ensures result == kc.localRoots
 
 // getSortedRoots: every "+"-separated part of the locator is examined; a part
@@ -171,6 +180,12 @@ package keepclient
 //@   requires len(locator) >= 32
 //@   ghost e0 int64 = 0
 //@   at assign triesRemaining#1: set e0 = expectLength
+//@   # servers that failed transiently are tried again in the order in which they
+//@   # were probed (hints first, then rendezvous order): the retry list is a
+//@   # slice filled by appending the failed host, and becomes the next probe list
+//@   calls append#4: requires $0 == retryList && $1[0] == host
+//@   calls append#6: requires $0 == retryList && $1[0] == host
+//@   at assign serversToTry#2: assert serversToTry == retryList
 //@   loop 1: invariant expectLength == e0
 //@   loop 2: invariant expectLength == e0
 //@   loop 3: invariant expectLength == e0
@@ -270,12 +285,15 @@ package keepclient
 //@   modifies KeepClient.localRoots KeepClient.writableLocalRoots KeepClient.gatewayRoots
 //@   ensures kc.localRoots == locals && kc.writableLocalRoots == writables && kc.gatewayRoots == gateways
 //@ spec macro listedWritable(list, n, u) bool = exists k int :: 0 <= k && k < n && list.Items[k].Uuid == u && !list.Items[k].ReadOnly
-//@ func KeepClient.loadKeepServers property C11 safety -bounds
+//@ func KeepClient.loadKeepServers property C11,C12 safety -bounds
 //@   calls KeepClient.setServiceRoots#1: requires $0 == localRoots && $1 == writableLocalRoots
 //@   calls KeepClient.setServiceRoots#1: requires forall u string :: has(writableLocalRoots, u) ==> listedWritable(list, len(list.Items), u) && has(localRoots, u)
 //@   calls KeepClient.setServiceRoots#1: requires kc.replicasPerService == 0 || kc.replicasPerService == 1
+//@   # every listed service (whatever its type) can be addressed by a +K@uuid hint
+//@   calls KeepClient.setServiceRoots#1: requires $2 == gatewayRoots && (forall u string :: has(localRoots, u) ==> has(gatewayRoots, u) && gatewayRoots[u] == localRoots[u])
 //@   loop 1: invariant list == old(list) && kc == old(kc) && writableLocalRoots != nil && localRoots != nil && listed != nil && gatewayRoots != nil && writableLocalRoots != localRoots && writableLocalRoots != gatewayRoots && localRoots != gatewayRoots
 //@   loop 1: invariant forall u string :: has(writableLocalRoots, u) ==> listedWritable(list, $i, u) && has(localRoots, u)
+//@   loop 1: invariant forall u string :: has(localRoots, u) ==> has(gatewayRoots, u) && gatewayRoots[u] == localRoots[u]
 //@   loop 1: invariant kc.replicasPerService == 0 || kc.replicasPerService == 1
 
 // PutR: the whole stream is read first (a read error aborts before anything is
